@@ -188,6 +188,7 @@ def main(ck):
     model = ck.run_model("c02", model_lines(cases)) if ok else [None] * len(cases)
     hist = {}
     sizes = {}
+    impl_raw = {}
     for idx, c in enumerate(cases):
         t = c["table"]
         nontrivial = len(t) >= 2 or any(x == FILL for r in t for x in r)
@@ -197,6 +198,8 @@ def main(ck):
             k = sum(1 for x in r if x != FILL)
             sizes[k] = sizes.get(k, 0) + 1
         res = run_case_impl(ck, c, idx)
+        if "raw" in res:
+            impl_raw[idx] = res["raw"]
         mo = model[idx]
         if mo is not None:
             if isinstance(mo, list) and mo and mo[0] == "ERR":
@@ -214,6 +217,25 @@ def main(ck):
         if idx < 3 or (c["kind"] == "mesh" and len(ck.cov["samples"]) < 4):
             ck.sample({"kind": c["kind"], "table": [["F" if x == FILL else x for x in r] for r in t][:6],
                        "edges_impl": res.get("raw", ([],))[0][:8]})
+    # the certified checker (Coq: C02_checker_decides_spec), extracted, on the IMPLEMENTATION's outputs
+    certified = 0
+    if ok:
+        lines, owners = [], []
+        for idx, c in enumerate(cases):
+            raw = impl_raw.get(idx)
+            if raw is None:
+                continue
+            lines.append(sx([c["table"], raw[0], raw[1], raw[2]]))
+            owners.append((idx, raw))
+        verdicts = ck.run_model("c02_check", lines)
+        for (idx, raw), v in zip(owners, verdicts):
+            certified += 1
+            py = spec_check(cases[idx]["table"], raw[0], raw[1], raw[2], len(raw[0]))
+            if v != 1:
+                ck.fail("certified_checker_rejects", {"table": cases[idx]["table"], "level": "builders"}, {"level": "builders"},
+                        detail=json.dumps({"edges": raw[0], "face_edge": raw[1], "npf": raw[2], "python_clause": py}))
+            elif py is not None:
+                ck.corr_failures.append({"case": cases[idx]["table"], "python_checker": py, "certified_checker": "accepts"})
     # extraction audit: the same model evaluated by the kernel (vm_compute) on a sample
     audit_n = 0
     if ok:
@@ -246,7 +268,7 @@ def main(ck):
                     ck.proof["errors"].append("extraction audit mismatch: kernel %s vs extracted %s" % (nums[:30], flat[:30]))
                 audit_n += 1
     ck.extra.update({"case_kinds": hist, "face_size_histogram": {str(k): v for k, v in sorted(sizes.items())},
-                     "extraction_audit_cases": audit_n,
+                     "extraction_audit_cases": audit_n, "impl_outputs_decided_by_certified_checker": certified,
                      "clauses_checked_on_impl": ["edges_exact", "edges_once", "edges_no_padding", "n_edge",
                                                  "face_edge", "face_edge_padding", "n_nodes_per_face", "euler (closed tilings)"],
                      "partial": "Euler's formula is checked on every generated closed tiling (not proved in Coq: no "
